@@ -165,4 +165,21 @@ let () =
               | q -> raise (Shape ("query: " ^ to_string q))) qs)
       | _ -> raise (Shape "specrun args"))
 
+(* specrunsw <start> <alltables> (queries (q ...)...) -> ((ok rc (reply ..) (log ..)) | (err ..) ...)   Spec/InvocationsSub.v *)
+let () =
+  register "specrunsw" (fun v ->
+      match v with
+      | List [start; tabs; List (Atom "queries" :: qs)] ->
+          let start = n_ start in
+          let tabs = Dfa_io.alltables_of tabs in
+          List (List.map (fun q ->
+              match q with
+              | List [Atom "q"; wb; ic; outs; List (Atom "words" :: ws); p] ->
+                  let e = { B.e_wordbreaks = cl (string_ wb); e_outputs = outputs_of outs; e_ignore_case = bool_of ic } in
+                  let r = Extracted.InvocationsSub.spec_run_sw start tabs e (List.map (fun w -> cl (string_ w)) ws) (cl (string_ p)) in
+                  outcome (fun r ->
+                      List [Atom "ok"; sn r.B.r_rc; List (Atom "reply" :: List.map ss r.B.r_reply); of_log r.B.r_log]) r
+              | q -> raise (Shape ("query: " ^ to_string q))) qs)
+      | _ -> raise (Shape "specrunsw args"))
+
 let linked = ()
